@@ -183,8 +183,9 @@ def run(ctx, items_by_logs, nproc=12):
     jobs = []
     for lk, items in items_by_logs.items():
         n = max(1, min(nproc, (len(items) + 59) // 60))
+        size = (len(items) + n - 1) // n
         for k in range(n):
-            part = items[k::n]
+            part = items[k * size:(k + 1) * size]      # contiguous: consecutive clients (id re-use) stay on one daemon
             if part:
                 jobs.append((b.root, b.moddir, b.daemon, os.path.join(ctx.scratch, "wire-%s-%d" % (lk, k)), part,
                              os.path.join(ctx.scratch, "wire-%s-%d.ndjson" % (lk, k)), lk))
